@@ -210,7 +210,7 @@ def mk(prop, gens, nq, nt, proj, oracle, theorems, **kw):
 # another corner (after an abort, under a failing checker, in a bottom-up build, ...) is still seen by this property.
 S = dict(
     td=GB.case_td, tdx=lambda r: (GB.case_td(r, exact=True), dict(exact=True)), bu=GB.case_bu, bud=GB.case_bu_dense, buc=GB.case_bu_chain,
-    pan=GB.case_panic, pano=GB.case_panic_only, panr=GB.case_panic_recover, panrtd=lambda r: GB.case_panic_recover(r, bu_prob=0.0), fail=GB.case_failing_checker, buf=GB.case_bu_fail, hid=GB.case_hidden,
+    pan=GB.case_panic, pano=GB.case_panic_only, panr=GB.case_panic_recover, panrtd=lambda r: GB.case_panic_recover(r, bu_prob=0.0), fail=GB.case_failing_checker, buf=GB.case_bu_fail, hid=GB.case_hidden, hidp=GB.case_hidden_polluted,
     ovl=GB.case_overlap, cyc=GB.case_cycle, rol=GB.case_roles, ero=GB.case_erosion, k1=GB.case_partial_td_then_bu,
     k2=GB.case_multichecker,
     # top-down-only histories (C01's quantifier: sessions of requires interleaved with external changes)
@@ -250,7 +250,7 @@ PROPS.update({
     "C04": mk("C04", st(bu=3, bud=3, buc=2, buf=1, pan=1, panr=1, rol=1, ero=1, hid=1, ovl=1), 3000, 30000,
               proj_lines(("op ", "ev execute_", "ev schedule_", "ev check_task_re", "out ", "abort ", "done", "bad-op")), OB.c04, [],
               proj_name="C04: order of execute_start/end, schedule and scheduling-check events", known_match=known_if_model_agrees("K7", OB.c04, pat_after_abort), exhaustive=True),
-    "C05": mk("C05", st(hid=4, ero=2, td=1, bu=1, bud=1, pan=1, panr=1, ovl=1, rol=1), 3000, 30000,
+    "C05": mk("C05", st(hid=4, hidp=1, ero=2, td=1, bu=1, bud=1, pan=1, panr=1, ovl=1, rol=1), 3000, 30000,
               proj_lines(("op ", "out ", "abort ", "done", "skipped", "fs ", "st ", "bad-op")),
               lambda c, io: OB.dump_invariants(c, io, "C05") + OB.abort_content(c, io), [],
               proj_name="C05: abort kinds, contents at abort, store dump",
@@ -269,7 +269,7 @@ PROPS.update({
     "C09": mk("C09", st(td=3, bu=2, buc=1, fail=2, bud=1, buf=1, pan=1, panr=1, hid=1), 3000, 30000,
               proj_lines(("op ", "ev read_end", "ev write_end", "ev require_end", "ev check_", "abort ", "bad-op")), OB.c09, [],
               proj_name="C09: stamps in *_end events and verdicts of every check event", exhaustive=True),
-    "C16": mk("C16", st(td=2, bu=2, bud=2, buc=1, hid=1, fail=1, buf=1, pan=1, panr=1, ovl=1, cyc=1, rol=1, ero=1, k1=1, k2=1), 3000, 30000,
+    "C16": mk("C16", st(td=2, bu=2, bud=2, buc=1, hid=1, hidp=1, fail=1, buf=1, pan=1, panr=1, ovl=1, cyc=1, rol=1, ero=1, k1=1, k2=1), 3000, 30000,
               proj_lines(ALL_BUILD), lambda c, io: [], [], proj_name="C16: complete canonical event stream and outputs",
               replays=dict(quick=2, thorough=7)),
     "C17": mk("C17", st(td=2, bu=2, buc=1, pan=2, panr=1, fail=2, bud=1, buf=1, hid=1, ovl=1, cyc=1, rol=1), 3000, 30000,
@@ -281,7 +281,7 @@ PROPS.update({
     "C19": mk("C19", st(pan=3, pano=1, panr=2), 3000, 30000,
               proj_lines(("op ", "out ", "abort ", "done", "skipped", "fs ", "cl ", "bad-op")), OB.c19, [],
               proj_name="C19: outcomes of all sessions after an abort", known_match=known_if_model_agrees("K6", OB.c19, pat_after_abort)),
-    "C20": mk("C20", st(rol=3, td=1, bu=1, bud=1, pan=2, pano=1, panr=1), 3000, 30000,
+    "C20": mk("C20", st(rol=3, td=1, bu=1, bud=1, pan=2, pano=1, panr=1, hidp=1), 3000, 30000,
               proj_lines(("op ", "out ", "abort ", "done", "skipped", "cl ", "bad-op")),
               lambda c, io: OB.c20(c, io) + ([f"well-formed program aborted: {l}" for l in io if l in ("abort overlap", "abort hidden", "abort cyclic")]
                                              if c.meta.get("stream") in WELLFORMED_STREAMS else []), [],
